@@ -312,6 +312,27 @@ func (e *Env) evalIdent(name string) Val {
 			}
 		}
 		e.fail("loopi outside an index loop")
+	case "outeri":
+		// inside a nested loop: the index of the element the enclosing index loop is processing
+		// (= the number of its completed iterations)
+		if e.loop != nil && e.fr != nil {
+			var parent *loopInfo
+			for _, li := range e.fr.loops {
+				if li != e.loop && li.blocks[e.loop.header] && (parent == nil || len(li.blocks) < len(parent.blocks)) {
+					parent = li
+				}
+			}
+			if parent != nil {
+				for _, in := range parent.header.Instrs {
+					if s, ok := in.(*ssa.Store); ok {
+						if a, ok := s.Addr.(*ssa.Alloc); ok && a.Comment == "rangeindex" && !a.Heap {
+							return spec(u.get(e.cur, e.fr.localKey(a), SInt))
+						}
+					}
+				}
+			}
+		}
+		e.fail("outeri outside a loop nested in an index loop")
 	case "ranged":
 		// the slice a "for ... range <slice>" loop iterates over
 		if e.loop != nil && e.fr != nil {
